@@ -3,7 +3,8 @@
    public call on a falcon.media.Handlers object (or one resolution made through
    Request.get_media / Response.render_body / Request.get_param_as_json) logged at its return:
      [op, o, k, h, pairs, ct, d, r, res, exc, map]
-   res: handler id returned / resolved (0 = none), exc: "none" | "keyerror" | "415" | "other",
+   res: handler id returned / resolved (0 = none), exc: "none" | "keyerror" | "415" | "other" |
+        "raised" (updatefail: the caller's own exception came back out of update(), as it must),
    map: the mapping of the object as its public view reports it after the call
         (for copy: the mapping of the new object).
    Every event is replayed with the action of Handlers.tla it stands for.  Total: the first
@@ -31,13 +32,14 @@ TInit == /\ tid \in 1..Len(Traces) /\ l = 1 /\ verdict = "ok" /\ dnote = "ok"
          /\ last = Rec("init", 0, NOKEY, 0, NOKEY, NOKEY, FALSE, 0, FALSE)
 
 Valid(e) == /\ e.o \in DOMAIN objs
-            /\ e.op \in {"set", "del", "pop", "update", "clear", "setdefault", "copy", "resolve"}
+            /\ e.op \in {"set", "del", "pop", "update", "updatefail", "clear", "setdefault", "copy", "resolve"}
             /\ e.op = "copy" => objs[e.o].map # <<>>
 
 Act(e) == CASE e.op = "set"        -> Set(e.o, e.k, e.h)
             [] e.op = "del"        -> Del(e.o, e.k)
             [] e.op = "pop"        -> Pop(e.o, e.k, e.r)
             [] e.op = "update"     -> Update(e.o, e.pairs)
+            [] e.op = "updatefail" -> UpdateFail(e.o, e.pairs)
             [] e.op = "clear"      -> Clear(e.o)
             [] e.op = "setdefault" -> SetDefault(e.o, e.k, e.h)
             [] e.op = "copy"       -> Copy(e.o)
@@ -45,7 +47,7 @@ Act(e) == CASE e.op = "set"        -> Set(e.o, e.k, e.h)
 
 (* clauses the property states; judged against the mapping the object itself reports *)
 JudgeP(e) ==
-    IF e.exc = "other" THEN "P:exc"
+    IF e.exc = "other" \/ (e.exc = "raised") # (e.op = "updatefail") THEN "P:exc"
     ELSE IF e.op # "resolve" THEN "ok"
     ELSE LET ds == DesignatedSet(e.map, e.ct, e.d) IN
          IF e.res # NONE /\ e.res \notin ds THEN "P:stale"
